@@ -104,6 +104,7 @@ def run_tlc(module, cfg, wd, *, workers=NCPU, env=None, dump=None, simulate=None
     res['violated'] = re.findall(r'Error: Invariant (\w+) is violated', out) + \
         re.findall(r'Error: Action property (\w+) is violated', out) + \
         (['<temporal>'] if 'Temporal properties were violated' in out else []) + \
+        re.findall(r'Error: Temporal property (\w+) was violated', out) + \
         (['<postcondition>'] if 'POSTCONDITION' in out and 'violated' in out.split('POSTCONDITION')[-1][:200] else [])
     res['error'] = None
     if timed_out:
